@@ -1,5 +1,7 @@
+\* Example (all repaired); checks/C12/check.py writes the configurations it runs (lib/fmtlib.py cmd_cfg) from the open findings.
 SPECIFICATION CSpec
 CONSTANTS N = 3
   Deviations = {}
-INVARIANTS UntouchedOnError AllRewritten
+  Tolerated = {}
+INVARIANTS UntouchedOnError OnlyProjectTouched FinalPost
 PROPERTY Terminates
